@@ -46,13 +46,14 @@ Theorem pad_in_bounds_exact_last :
 Proof. exact pad_in_bounds_exact. Qed.
 Print Assumptions pad_in_bounds_exact_last.
 
-(** refuted without the side condition, inside the documented domain (buckets do not
+(** PINNED tree (sizing before `fix:` d13e4f1; fixed finding pad-overflow): refuted without the
+    side condition, inside the documented domain (buckets do not
     overlap: spacing_bins = 17 >= n = 16; no rounding to a power of two): 5 filled buckets,
     spacing_ps = 265/256 -> s1 = 16.5625, spacing_bins = 17, nmax = ceil(82.8125) = 83, last
     write at 4*17+15 = 83 *)
 Theorem pad_in_bounds_refuted :
   exists (n nb : Z) (sps : Qc) (filled : list bool) (sp nm : Z),
-    let sz := main_sizes n nb sps (Q2Qc 1) false in
+    let sz := main_sizes_pinned n nb sps (Q2Qc 1) false in
     Z.of_nat (length filled) = nb /\
     spacing_bins sz = Val sp /\ wake_nmax nb sz = Val nm /\ n <= sp /\
     exists b, In b (bucket_numbers filled) /\ nm <= pad_last n sp b.
@@ -63,18 +64,38 @@ Proof.
 Qed.
 Print Assumptions pad_in_bounds_refuted.
 
-(** rounding up to a power of two does not rescue long patterns: 31 filled buckets, n = 16,
+(** PINNED tree: rounding up to a power of two did not rescue long patterns: 31 filled buckets, n = 16,
     spacing_ps = 33/32 -> s1 = 16.5, spacing_bins = 17, nmax = 2^ceil(log2 512) = 512, last
     write at 30*17+15 = 525 *)
 Theorem pad_in_bounds_pow2_refuted :
   exists (n nb : Z) (sps : Qc) (sp nm : Z),
-    let sz := main_sizes n nb sps (Q2Qc 1) true in
+    let sz := main_sizes_pinned n nb sps (Q2Qc 1) true in
     spacing_bins sz = Val sp /\ wake_nmax nb sz = Val nm /\ n <= sp /\ nm <= pad_last n sp (nb - 1).
 Proof.
   exists 16, 31, (Q2Qc (33 # 32)), 17, 512.
   cbv zeta. split; [vm_compute; reflexivity|]. split; [vm_compute; reflexivity|]. split; [discriminate | vm_compute; discriminate].
 Qed.
 Print Assumptions pad_in_bounds_pow2_refuted.
+
+(** tree after `fix:` d13e4f1 (spaced_bins >= (nbuckets-1)*spacing_bins + ps_bins before the
+    rounding): for EVERY spacing, padding and rounding mode, every cell padBunchProfiles writes
+    and wakePotential reads back lies inside the wake buffers main allocates.  No condition on
+    the spacing is left; the two magnitude bounds only keep upper_power_of_two on its domain. *)
+Theorem pad_in_bounds_fixed :
+  forall n nb sps padding roundp sp nm b x,
+    0 < n < 2 ^ 32 -> 1 < nb < 2 ^ 32 ->
+    spacing_bins (main_sizes n nb sps padding roundp) = Val sp ->
+    wake_nmax nb (main_sizes n nb sps padding roundp) = Val nm ->
+    Qcceil (spaced_prod n nb sps) <= 2 ^ 63 -> (nb - 1) * sp + n <= 2 ^ 63 ->
+    0 <= b < nb -> 0 <= x < n ->
+    0 <= pad_index sp b x < nm.
+Proof. exact pad_in_bounds_fixed_l. Qed.
+Print Assumptions pad_in_bounds_fixed.
+
+Example pad_in_bounds_fixed_hyps : (* the two former witnesses are now in bounds *)
+  sizes_list 16 5 (Q2Qc (265 # 256)) (Q2Qc 1) false = [17; 16; 84; 84] /\ pad_ok 16 84 17 [4; 3; 2; 1; 0] = true /\
+  sizes_list 16 31 (Q2Qc (33 # 32)) (Q2Qc 1) true = [17; 16; 1024; 1024] /\ pad_last 16 17 30 = 525.
+Proof. vm_compute. repeat split; reflexivity. Qed.
 
 (** 2. kick maps (tree after `fix:` fbbfcf6).  Every table entry updateSM writes names a cell
     of the grid row, for every offset whatsoever (kicks far beyond the grid included) ... *)
@@ -183,6 +204,19 @@ Example fp_table_in_bounds_hyps : (* n = 32, no shift: zerobin = 31/2 *)
   1 <= Qctrunc (Q2Qc (31 # 2)) /\ (this (Q2Qc (31 # 2)) <= inject_Z (32 - 2))%Q /\ fp_all_ok 32 4 (Q2Qc (31 # 2)) true = true.
 Proof. split; [vm_compute; discriminate|]. split; [vm_compute; discriminate | vm_compute; reflexivity]. Qed.
 
+(** tree after `fix:` 5c817d5: main builds the cubic map only when its guard
+    [1 <= zerobin <= GridSize-2] holds; then the constructor is in bounds - for every grid
+    shift the program accepts (the others are refused with a message) *)
+Theorem fp_guarded_table_in_bounds :
+  forall n zb damping, 4 <= n <= 2 ^ 24 -> fp_guard n zb = true ->
+    exists evs, fp_events n 4 zb damping = Some evs /\ forallb (ev_ok n 4) evs = true.
+Proof. exact fp_guarded_in_bounds. Qed.
+Print Assumptions fp_guarded_table_in_bounds.
+
+Example fp_guard_example :
+  fp_guard 32 (Q2Qc (31 # 2)) = true /\ fp_guard 32 (Qcz 36) = false /\ fp_guard 32 (Q2Qc (1 # 2)) = false /\ fp_guard 32 (Qcz (-5)) = false.
+Proof. vm_compute. repeat split; reflexivity. Qed.
+
 (** the three-point stencil does not depend on the zero bin: always in bounds *)
 Theorem fp_table_two_sided_in_bounds :
   forall n zb damping, 3 <= n <= 2 ^ 30 ->
@@ -190,7 +224,8 @@ Theorem fp_table_two_sided_in_bounds :
 Proof. exact BoundsP.fp_table_two_sided_in_bounds. Qed.
 Print Assumptions fp_table_two_sided_in_bounds.
 
-(** refuted for an energy axis shifted so that zero energy is outside the grid (the first
+(** the constructor itself (unchanged; reachable from main only on the PINNED tree, fixed
+    finding fp-zerobin-outside-grid) is refuted for an energy axis shifted so that zero energy is outside the grid (the first
     stencil loop is bounded by the zero bin, not by n): n = 32, PhaseSpaceShiftY = 20.5 ->
     zerobin = 36: the axis is read at cell 32 and the table written past its 128 entries;
     zerobin = -5 (shift -20.5): the loop start is a negative float converted to unsigned;
